@@ -573,6 +573,9 @@ def run_history_replay(ctx, spec, corr, memo):
             t = str(m)
             targets += [t, " " + t, t + " ", "+" + t, t.capitalize(), str(int(m)) + ".", str(int(m)) + ".00"]
     earlier = [x for (_t, x) in memo_keys(memo)]
+    by_norm = {}
+    for y in earlier:
+        by_norm.setdefault(norm_id(y), []).append(y)
     rng.shuffle(earlier)
     targets += earlier if ctx.thorough else earlier[:4000]
     for x in targets:
@@ -586,7 +589,9 @@ def run_history_replay(ctx, spec, corr, memo):
             diff = [k for k in first if first[k] != orepr(o)[k]]
             bad = f"the same identifier was answered differently later in the run (state kept between calls): {diff[:4]} first {first[diff[0]]} now {orepr(o)[diff[0]]}"
         if bad:
-            coll = [m for m in makers if norm_id(m) == norm_id(x)]
+            # earlier identifiers with the same text up to blanks / case / sign (makers and main-pass calls): part of the failing input
+            coll = [m for m in makers if norm_id(m) == norm_id(x)] + \
+                   [y for y in by_norm.get(norm_id(x), []) if not (type(y) is type(x) and y == x)]
             corr.failures.append({"stream": "history", "case": {"atom": x, "history": coll or makers, "fresh_table": False},
                                   "what": bad + "  [after the earlier calls listed in case.history]", "observed": orepr(o)})
 
